@@ -233,6 +233,13 @@ def gen_secret(r, cls, length=None, like=None):
     if cls == "j9p":       # a Juniper plaintext (identity); encodings are rendered per occurrence
         n = length or r.randint(10, 14)
         return r.choice(GZ) + "".join(r.choice(GZ + "GHJKLMNPQRSTUVWXYZ23456789") for _ in range(n - 2)) + r.choice(GZ)
+    if cls == "j9p-l1":    # a Juniper plaintext with Latin-1 letters (bytes >= 0x80 that are not valid UTF-8 on their own)
+        n = length or r.randint(10, 13)
+        base = [r.choice(GZ + "GHJKLMNPQRSTUVWXYZ23456789") for _ in range(n)]
+        for i in r.sample(range(1, n - 1), 2):
+            base[i] = r.choice("\xe4\xf6\xfc\xe9\xf1\xdf")
+        base[0], base[-1] = r.choice(GZ), r.choice(GZ)
+        return "".join(base)
     if cls == "j9p-num":   # a Juniper plaintext that is itself all digits
         n = length or r.randint(10, 13)
         return r.choice("23456789") + "".join(r.choice("0123456789") for _ in range(n - 1))
@@ -491,8 +498,10 @@ def expand(r, pattern, ctx):
             i = r.randrange(len(ctx["words"]))
             w = ctx["words"][i]
             c = r.random()
-            w = w if c < 0.5 else (w.upper() if c < 0.7 else (w.capitalize() if c < 0.9 else w.swapcase()))
-            segs.append(["w", w, {"w": i}])
+            w2 = w if c < 0.5 else (w.upper() if c < 0.7 else (w.capitalize() if c < 0.9 else w.swapcase()))
+            if w2.lower() != w.lower():
+                w2 = w                      # a casing that is not one-to-one (sharp s -> SS) is no occurrence of the word
+            segs.append(["w", w2, {"w": i}])
     return {"segs": segs, "eol": "\n"}
 
 
@@ -511,7 +520,7 @@ def gen_words(r, n, forbidden_text):
         else:
             w = "".join(r.choice("gjkqvwxyz" if i % 2 == 0 else "ouyiz") for i in range(r.randint(3, 8)))
             if len(w) >= 4 and r.random() < 0.1:
-                w = w[:2] + r.choice("üéñ") + w[3:]          # a non-ASCII letter inside (case folding beyond ASCII)
+                w = w[:2] + r.choice("üéñß") + w[3:]          # a non-ASCII letter inside (case folding beyond ASCII)
         w = w[:8]
         if len(w) < 3 or w in words or w in "netconanremoved" or w in low:
             continue
